@@ -896,7 +896,13 @@ class EventBus:
             await asyncio.sleep(0)  # Yield to event loop
 
             # Double-check we're truly idle - if new events came in, wait again
-            while not self._on_idle.is_set() or self.events_started or self.events_pending or self._events_in_flight:
+            while (
+                not self._on_idle.is_set()
+                or self.events_started
+                or self.events_pending
+                or self._events_in_flight
+                or self.event_queue.qsize()  # e.g. forwarded in meanwhile: already 'completed' on the bus it came from
+            ):
                 if timeout is not None:
                     elapsed = asyncio.get_event_loop().time() - start_time
                     remaining_timeout = max(0, timeout - elapsed)
